@@ -5,7 +5,7 @@
 //   mode "full"    : the whole image on every path (reference; its projection digest is what "Same" means)
 //   mode "prefix"  : every prefix length n = 0 .. size-1 on every path (bytes / stream / wrap / wwrap)
 //   mode "corrupt" : every preamble byte position p < preLen x replacement values
-//                    {0,1,2,3,4,8,16,32,64,0x7f,0x80,200,254,0xff,v-1,v+1,v-2,v+2,v/2,2v} \ {v} (thorough: all 255 others)
+//                    {0,1,2,3,4,8,16,32,64,0x7f,0x80,200,254,0xff,v-1..v-4,v+1..v+3,v/2,2v} \ {v} (thorough: all 255 others)
 // and logs ONE outcome event per attempt.  The bytes are placed flush against a PROT_NONE region (guardbuf.hpp);
 // attempts run in a forked child (one child per image; a child that faults reports and exits, the parent forks a
 // new one for the remaining attempts) with RLIMIT_AS, an allocation cap inside the tracking heap and a 2 s CPU
@@ -211,6 +211,7 @@ static void build_theta(bool thorough) {
   { auto u = mk(5, 1); add_theta("single", B(u.compact().serialize()), 8); }
   { auto u = mk(5, 6); add_theta("exact-ordered", B(u.compact(true).serialize()), 16); }
   { auto u = mk(5, 6); add_theta("exact-unordered", B(u.compact(false).serialize()), 16); }
+  { auto u = mk(5, 32); add_theta("exact-nominal-full", B(u.compact(true).serialize()), 16); }
   { auto u = mk(5, 200); add_theta("est-ordered", B(u.compact(true).serialize()), 24); }
   { auto u = mk(5, 200); add_theta("est-unordered", B(u.compact(false).serialize()), 24); }
   { auto u = mk(5, 40, 0.5f); auto c = u.compact(true); add_theta("est-p", B(c.serialize()), 24); }
@@ -373,8 +374,13 @@ static void build_hll(bool thorough) {
   for (int t = 0; t < 3; t++) {
     auto mk = [&](int lgk, int n) { hll_sketch s(lgk, types[t]); for (int i = 0; i < n; i++) s.update((uint64_t)(i * 2654435761ULL + 17)); return s; };
     struct K { const char* name; int lgk, n; };
-    std::vector<K> kinds = {{"empty", 8, 0}, {"list", 8, 3}, {"set", 8, 12}, {"hll", 8, 400}, {"hll-lgk4", 4, 30}, {"hll-lgk4-aux", 4, 6000}};
-    if (thorough) { kinds.push_back({"list-full", 8, 7}); kinds.push_back({"set-lgk10", 10, 40}); kinds.push_back({"hll-lgk7", 7, 2000}); }
+    // near capacity of each mode: rejection paths that first build state (a promotion inside the reader) only exist there.
+    // list-full: 7 of 8 slots; set-lgk10-half / -near: 48 / 90 coupons of the 96 a set of lgK 10 holds before it is promoted
+    // (a lowered lgK byte, still >= 8 and >= lgArr, makes the same coupons too many for a set)
+    std::vector<K> kinds = {{"empty", 8, 0}, {"list", 8, 3}, {"list-full", 8, 7}, {"set", 8, 12}, {"set-near", 8, 23},
+                            {"set-lgk10-half", 10, 48}, {"set-lgk10-near", 10, 90},
+                            {"hll", 8, 400}, {"hll-lgk4", 4, 30}, {"hll-lgk4-aux", 4, 6000}};
+    if (thorough) { kinds.push_back({"set-lgk12-near", 12, 300}); kinds.push_back({"hll-lgk7", 7, 2000}); }
     for (auto& k : kinds) {
       auto s = mk(k.lgk, k.n);
       add_hll(std::string(tn[t]) + "-" + k.name + "-compact", B(s.serialize_compact()));
@@ -419,7 +425,7 @@ static std::string use_cpc(const cpc_sketch& s) {
 static void build_cpc(bool thorough) {
   struct K { const char* name; int lgk, n; };
   std::vector<K> kinds = {{"empty", 4, 0}, {"sparse", 4, 1}, {"hybrid", 4, 5}, {"pinned", 4, 30}, {"sliding", 4, 200},
-                          {"sparse-lgk6", 6, 5}, {"hybrid-lgk6", 6, 20}, {"pinned-lgk6", 6, 100}, {"sliding-lgk6", 6, 2000}};
+                          {"sparse-lgk6", 6, 5}, {"hybrid-lgk6", 6, 20}, {"hybrid-near-pinned-lgk6", 6, 31}, {"pinned-lgk6", 6, 100}, {"sliding-lgk6", 6, 2000}};
   if (thorough) { kinds.push_back({"sliding-lgk5", 5, 3000}); kinds.push_back({"pinned-lgk7", 7, 250}); }
   for (auto& k : kinds) {
     cpc_sketch s(k.lgk);
@@ -471,7 +477,7 @@ template<> std::string qitem<std::string>(int i) { return g_long_strings ? litem
 template<class T> static void build_kll_t(const char* tname, bool thorough) {
   typedef kll_sketch<T> S;
   struct K { const char* name; int k, n; };
-  std::vector<K> kinds = {{"empty", 8, 0}, {"single", 8, 1}, {"exact", 8, 5}, {"est", 8, 60}};
+  std::vector<K> kinds = {{"empty", 8, 0}, {"single", 8, 1}, {"exact", 8, 5}, {"level0-full", 8, 8}, {"est", 8, 60}};
   // k above the minimum and n >> k: several levels, and lowering k / num_levels in the preamble still parses - to FEWER items than
   // the image holds (only the final "whole image consumed" check rejects it, after the items were constructed)
   if (g_long_strings) kinds.push_back({"deep-k16", 16, 500});
@@ -488,7 +494,7 @@ template<class T> static void build_req_t(const char* tname, bool thorough) {
   typedef req_sketch<T> S;
   struct K { const char* name; int k, n; bool hra; };
   std::vector<K> kinds = {{"empty", 4, 0, true}, {"single", 4, 1, true}, {"raw3", 4, 3, true}, {"exact-hra", 4, 10, true},
-                          {"exact-lra", 4, 10, false}, {"est-hra", 4, 120, true}, {"est-lra", 4, 120, false}};
+                          {"exact-lra", 4, 10, false}, {"exact-near-compaction", 4, 23, true}, {"est-hra", 4, 120, true}, {"est-lra", 4, 120, false}};
   if (g_long_strings) kinds.push_back({"deep-k6", 6, 300, true});
   if (thorough) { kinds.push_back({"est-k6", 6, 400, true}); }
   for (auto& k : kinds) {
@@ -505,7 +511,7 @@ template<class T> static void build_req_t(const char* tname, bool thorough) {
 template<class T> static void build_quantiles_t(const char* tname, bool thorough) {
   typedef quantiles_sketch<T> S;
   struct K { const char* name; int k, n; };
-  std::vector<K> kinds = {{"empty", 4, 0}, {"single", 4, 1}, {"exact", 4, 6}, {"est", 4, 50}};
+  std::vector<K> kinds = {{"empty", 4, 0}, {"single", 4, 1}, {"exact", 4, 6}, {"base-buffer-full", 4, 8}, {"est", 4, 50}};
   if (g_long_strings) kinds.push_back({"deep-k8", 8, 200});
   if (thorough) { kinds.push_back({"est-k8", 8, 300}); }
   for (auto& k : kinds) {
@@ -548,7 +554,7 @@ template<class S> static std::string use_fi(const S& s) {
 template<class T> static void build_fi_t(const char* tname, bool) {
   typedef frequent_items_sketch<T> S;
   struct K { const char* name; int n; };
-  for (auto& k : std::vector<K>{{"empty", 0}, {"few", 4}, {"purged", 40}}) {
+  for (auto& k : std::vector<K>{{"empty", 0}, {"few", 4}, {"near-purge", 11}, {"purged", 40}}) {
     if (g_long_strings && k.n == 0) continue;
     S s(4);
     for (int i = 0; i < k.n; i++) s.update(qitem<T>(i % 17 + (i % 3 == 0 ? 0 : i)), 1 + i % 4);
@@ -668,7 +674,7 @@ template<class T> static void build_varopt_t(const char* tname, bool thorough) {
   random_utils::override_seed(777);
   struct K { const char* name; int k, n, heavy; };
   // warmup: exact mode (h = n, r = 0); full: r only (equal-ish weights, h = 0); full-heavy / full-heavy4: h > 0 AND r > 0
-  std::vector<K> kinds = {{"empty", 8, 0, 0}, {"warmup", 8, 5, 0}, {"full", 8, 40, 0}, {"full-heavy", 8, 40, 2}, {"full-heavy4", 8, 60, 4}};
+  std::vector<K> kinds = {{"empty", 8, 0, 0}, {"warmup", 8, 5, 0}, {"warmup-full", 8, 8, 0}, {"full", 8, 40, 0}, {"full-heavy", 8, 40, 2}, {"full-heavy4", 8, 60, 4}};
   if (thorough) kinds.push_back({"full-k16", 16, 300, 3});
   for (auto& k : kinds) {
     if (g_long_strings && k.n == 0) continue;
@@ -709,7 +715,7 @@ template<class T> static void build_ebpps_t(const char* tname, bool thorough) {
   typedef ebpps_sketch<T> S;
   random_utils::override_seed(4242);
   struct K { const char* name; int k, n; };
-  std::vector<K> kinds = {{"empty", 6, 0}, {"single", 6, 1}, {"under-k", 6, 4}, {"partial", 6, 60}};
+  std::vector<K> kinds = {{"empty", 6, 0}, {"single", 6, 1}, {"under-k", 6, 4}, {"at-k", 6, 6}, {"partial", 6, 60}};
   if (thorough) kinds.push_back({"partial-k12", 12, 500});
   for (auto& k : kinds) {
     if (g_long_strings && k.n == 0) continue;
@@ -1003,7 +1009,7 @@ static std::vector<Attempt> make_attempts(const Image& im, int vals_mode) {
       // quick: boundary values, small counts / lg sizes, powers of two, and neighbours / half / double of the stored value
       // (count- and size-like fields need values that still parse: a slightly smaller k, one level less, half the count)
       if (vals_mode == 0) vals = {0, 1, 2, 3, 4, 8, 16, 32, 64, 0x7f, 0x80, 200, 254, 0xff, (uint8_t)(v - 1), (uint8_t)(v + 1),
-                                  (uint8_t)(v - 2), (uint8_t)(v + 2), (uint8_t)(v / 2), (uint8_t)(v * 2)};
+                                  (uint8_t)(v - 2), (uint8_t)(v + 2), (uint8_t)(v - 3), (uint8_t)(v + 3), (uint8_t)(v - 4), (uint8_t)(v / 2), (uint8_t)(v * 2)};
       else for (int x = 0; x < 256; x++) vals.push_back(x);
       std::sort(vals.begin(), vals.end());
       vals.erase(std::unique(vals.begin(), vals.end()), vals.end());
